@@ -7,7 +7,7 @@ Trace == ndJsonDeserialize("obs.ndjson")
 VARIABLES l, bad
 tvars == <<l, bad, m, w>>
 TInit == /\ l = 1 /\ bad = <<>>
-         /\ m = <<[name |-> "ID", perm |-> "rw", auto |-> FALSE, key |-> TRUE, dflt |-> FALSE]>>
+         /\ m = <<[name |-> "ID", perm |-> "rw", auto |-> FALSE, key |-> TRUE, dflt |-> FALSE, dbd |-> FALSE]>>
          /\ w = [op |-> "update", pay |-> <<>>, sel |-> {}, star |-> FALSE, omit |-> {}]
 
 WSEv ==
